@@ -175,6 +175,15 @@ def main():
                 v["native"] = res
     kept = []
     for v in violations:
+        if v["layer"] == "P" and not v.get("aux") and v.get("reproduced") is False and isinstance(v.get("native"), dict) \
+                and not str(v["native"].get("detail", "")).startswith(("replay crashed", "no native replay handler")):
+            # the solver's counter-model WAS replayed and the real code satisfies the property-level check on exactly that input: the refuted
+            # clause is not violated by the code on the witness the solver offers (spurious model or a clause sharper than the statement).
+            # Not a violation and not a proof: undecided, layer B decides.
+            undecided.append({"obligation": v["clause"], "site": v["site"],
+                              "reason": "refuted, but the replay of the counter-model on the real code satisfies the property (no violation shown; layer B decides): "
+                                        + (v.get("solver_output") or "")[:160].replace("\n", " ")})
+            continue
         if v.get("aux") and not v.get("reproduced"):
             undecided.append({"obligation": v["clause"], "site": v["site"],
                               "reason": "auxiliary obligation refuted but the counter-model does not violate the property on the real code "
